@@ -7,6 +7,7 @@ at every other selector poll must be answered inside the handle_message call tha
 them; waiting requests must be answered within B(op).
 """
 import math
+import os
 
 from tornado import gen
 
@@ -132,7 +133,10 @@ def run_case(spec):
         op = rnd.choice([['req', 'stop', {'name': 'a', 'waiting': True}], ['req', 'restart', {'name': 'a', 'waiting': True}],
                          ['req', 'reload', {'name': 'a', 'waiting': True}], ['req', 'rm', {'name': 'a', 'waiting': True}],
                          ['req', 'set', {'name': 'a', 'options': {'numprocesses': 0}, 'waiting': True}],
-                         ['req', 'decr', {'name': 'a', 'nb': np_, 'waiting': True}]])
+                         ['req', 'decr', {'name': 'a', 'nb': np_, 'waiting': True}],
+                         # a per-request grace period (also 0) replaces the watcher's
+                         ['req', 'kill', {'name': 'a', 'graceful_timeout': 0, 'waiting': True}],
+                         ['req', 'kill', {'name': 'a', 'graceful_timeout': 0.2, 'waiting': True}]])
         run_history({'kill_latency': 0.0, 'watchers': [wconf], 'steps': [['adv', 0.2], op, ['adv', 0.1]]}, res)
         res.obs['parallel_kill_cases'] += 1
     else:
@@ -161,7 +165,7 @@ def worker_init():
                 gtk = a[1]
             if gtk is None:
                 gtk = self.graceful_timeout
-            rec = {'t': w.clock.now, 'done': False, 'ret': None, 'gt': gtk}
+            rec = {'t': w.clock.now, 'done': False, 'ret': None, 'gt': gtk, 'mid': getattr(w, 'dispatching', None)}
             w.kills.setdefault(process.pid, []).append(rec)
 
             def fin(f, rec=rec):
@@ -314,6 +318,11 @@ def _history(w, h, res):
     yield r.run_steps(before=before, after=after)
     if w.stalled is None:
         yield w.settle(400.0)
+        # settle() looks at the exclusive slot; a waiting non-exclusive request (kill) may still be in its grace period
+        waited = 0.0
+        while w.stalled is None and waited < 400 and any(m is not None and not w.reply_meta(m) for m, _, _, _, _ in waiting):
+            yield gen.sleep(0.05)
+            waited += 0.05
     w.sel.any_hook = None
     # ---- (i) loop monitor
     if w.stalled is not None:
@@ -379,8 +388,11 @@ def _history(w, h, res):
                 lat = t - t0
                 # kills with their own timeout that overlap this operation (in flight before it, or arriving
                 # during it) have to finish first: their graceful_timeout is one of "the applicable" ones
+                # (what a kill request starts itself, in the same instant it is dispatched, is that request, not
+                # something overlapping it: its grace period is the one the request names)
                 over = [r['gt'] for recs in w.kills.values() for r in recs
-                        if r['t'] <= t and r.get('t_done', 1e18) >= t0 and r['gt'] is not None]
+                        if r['t'] <= t and r.get('t_done', 1e18) >= t0 and r['gt'] is not None
+                        and not (cmd == 'kill' and r.get('mid') == mid)]
                 if over:
                     B = B + kphase(max(over), w.kernel.kill_latency)
                 res.hist['waiting_latency_over_bound_pct'][int(100 * lat / B) // 10 * 10] += 1
